@@ -14,6 +14,7 @@ MOD = 'mirsym.checks.c03'
 
 KIDS = {
     'T1': None, 'T2': None, 'T3': None,          # symbolic text of that length
+    'E1': None, 'E2': None,                      # the same, every character written as a numeric character reference (raw differs from value)
     'hi': 'hi', 'sp': ' a  b ', 'nl': '\n  foo\n  ', 'blank': '\n   \n',
     'id': '{{v1}}', 'un': '{{u9}}', 'call': '{{f1(v2)}}', 'arrow': '{{() => v1}}', 'fn': '{{function () {{ return v2 }}}}',
     'obj': '{{{{a: () => v2}}}}', 'lit': '{{"s"}}', 'num': '{{1}}', 'mem': '{{v1.x}}', 'cond': '{{v1 ? v2 : v3}}',
@@ -28,9 +29,9 @@ def make_skeleton(spec):
     leaves = []
     parts = []
     for i, k in enumerate(spec['kids']):
-        if k in ('T1', 'T2', 'T3'):
+        if k in ('T1', 'T2', 'T3', 'E1', 'E2'):
             nm = 'X%d' % i
-            leaves.append(Leaf(nm, 'text', int(k[1])))
+            leaves.append(Leaf(nm, 'text' if k[0] == 'T' else 'textent', int(k[1])))
             parts.append('{%s}' % nm)
         else:
             parts.append(KIDS[k])
@@ -107,7 +108,7 @@ def _shape(env, kids):
 
 COMP_HOSTS = ['Foo', 'C1', 'mem', 'memtag', 'memsvg', 'memdeep']       # a member expression is a component host whatever its last segment spells
 ELEM_HOSTS = ['div', 'frag', 'KeepAlive', 'cust']
-ONE = ['id', 'un', 'call', 'arrow', 'fn', 'obj', 'lit', 'mem', 'cond', 'hi', 'sp', 'nl', 'blank', 'T1', 'T2', 'empty', 'cmt', 'spread', 'spcall', 'spobj', 'spfn', 'el', 'elt', 'eld', 'elf', 'frag', 'comp', 'num']
+ONE = ['id', 'un', 'call', 'arrow', 'fn', 'obj', 'lit', 'mem', 'cond', 'hi', 'sp', 'nl', 'blank', 'T1', 'T2', 'E1', 'E2', 'empty', 'cmt', 'spread', 'spcall', 'spobj', 'spfn', 'el', 'elt', 'eld', 'elf', 'frag', 'comp', 'num']
 
 
 def kid_jobs(tier, hosts, vslots_for):
@@ -119,7 +120,7 @@ def kid_jobs(tier, hosts, vslots_for):
                 out.append({'host': h, 'kids': [], 'vslots': vs})
             for k in ONE:
                 out.append({'host': h, 'kids': [k], 'vslots': vs})
-        pal2 = ['id', 'call', 'arrow', 'obj', 'hi', 'T2', 'empty', 'spread', 'el', 'nl'] if tier == 'quick' else ONE
+        pal2 = ['id', 'call', 'arrow', 'obj', 'hi', 'T2', 'E2', 'empty', 'spread', 'el', 'nl'] if tier == 'quick' else ONE
         for a, b in itertools.product(pal2, repeat=2):
             if _adjacent_text(a, b):
                 continue
@@ -139,7 +140,7 @@ def kid_jobs(tier, hosts, vslots_for):
 
 
 def _adjacent_text(a, b):
-    txt = ('T1', 'T2', 'T3', 'hi', 'sp', 'nl', 'blank')
+    txt = ('T1', 'T2', 'T3', 'E1', 'E2', 'hi', 'sp', 'nl', 'blank')
     return a in txt and b in txt
 
 
